@@ -27,18 +27,25 @@ def gen_lifetime(rnd, n):
 
 def build_case(rnd, cmds=None, cmd_rate=0.15, config=None, n_addr=None):
     addrs = ['gdb_conn:0x%x' % (0x55550000 + 0x100 * i) for i in range(n_addr or rnd.choice([1, 2, 3]))]
+    if rnd.random() < 0.3:
+        # 64-bit heap addresses, some of them exactly 4 GiB apart (equal in their low 32 bits)
+        addrs = ['gdb_conn:0x%x' % (0x7f3a14002b60 + 0x100000000 * i) for i in range(len(addrs))]
     # per address: one or more consecutive lifetimes
     lanes = []
     for a in addrs:
         segs = []
         for _ in range(rnd.choice([1, 1, 2, 3])):
-            segs.append(gen_lifetime(rnd, rnd.choice([3, 8, 15])))
+            seg = gen_lifetime(rnd, rnd.choice([3, 8, 15]))
+            if rnd.random() < 0.12:
+                # a first message whose name is a PART of `get_registry` (org_kde_kwin_dpms_manager.get exists): it says nothing about the role
+                seg.insert(0, [0, ['my_widget'], 77, rnd.randrange(2), rnd.choice(['get', 'registry', 'get_', 't_reg', 'g', 'get_registry_x']), []])
+            segs.append(seg)
         lanes.append((a, segs))
     events = []
     pos = {a: [0, 0] for a, _ in lanes}          # segment index, message index
     t = 1000000
     alive = True
-    threads = {a: rnd.choice([1, 1, 2]) for a in addrs}
+    threads = {a: rnd.choice([1, 1, 2, 300, 70000]) for a in addrs}      # gdb's global thread numbers are not bounded by 256
     while True:
         cands = [(a, segs) for a, segs in lanes if pos[a][0] < len(segs)]
         if not cands:
@@ -75,7 +82,7 @@ def build_case(rnd, cmds=None, cmd_rate=0.15, config=None, n_addr=None):
         pm = list(seg[mi])
         t += rnd.choice([0, 10, 1000, 999999, 1000001, 2500000])
         pm[0] = t
-        th = threads[a] if rnd.random() < 0.9 else 3 - threads[a]
+        th = threads[a] if rnd.random() < 0.9 else (3 - threads[a] if threads[a] < 3 else threads[a] + 1)
         events.append(['gmsg', a, th, pm])
         pos[a][1] += 1
     cfg = list(config or [None, None, 0, 1, 1])
